@@ -545,3 +545,103 @@ func (e *Env) RReadOnlyResolvers() {
 	e.Run.Analysed("RestorerResolver implementations", n)
 	e.Run.Floor("R-LOCK", "RestorerResolver implementations", n, 3)
 }
+
+// RSharedState (R-SHARED): a Restorer (and a Decorator) is shared by all the files that are
+// restored (decorated) with it, possibly from several goroutines. What a restore may write
+// through it is frozen here: the node maps (that is what they are for), the FileSet field when it
+// is nil (a default), and the decorator's file-name table. Any other store into a field of the
+// shared struct — a cache of resolved names, a counter, a "last file" — makes the result of one
+// restore depend on the restores before it: names chosen for an earlier file are reused although
+// the resolver's answer has changed, and concurrent restores race on it.
+var sharedWritable = map[string]string{
+	"Restorer.Map":        "the node maps: documented output of a restore",
+	"Restorer.Fset":       "defaulted when nil, before anything is restored",
+	"Decorator.Map":       "the node maps: documented output of decorating",
+	"Decorator.Filenames": "file names by *dst.File: documented output of decorating",
+	"Decorator.Fset":      "defaulted when nil",
+}
+
+func (e *Env) RSharedState() {
+	pkg := e.Prog.Pkg(load.PkgDecorator)
+	info := pkg.TypesInfo
+	shared := map[*types.TypeName]bool{}
+	for _, n := range []string{"Restorer", "Decorator"} {
+		if tn, ok := pkg.Types.Scope().Lookup(n).(*types.TypeName); ok {
+			shared[tn] = true
+		}
+	}
+	var sharedField func(x ast.Expr) string
+	sharedField = func(x ast.Expr) string {
+		x = ast.Unparen(x)
+		switch v := x.(type) {
+		case *ast.IndexExpr:
+			return sharedField(v.X)
+		case *ast.StarExpr:
+			return sharedField(v.X)
+		case *ast.SliceExpr:
+			return sharedField(v.X)
+		case *ast.SelectorExpr:
+			if sel := info.Selections[v]; sel != nil && sel.Kind() == types.FieldVal {
+				t := sel.Recv()
+				for _, idx := range sel.Index() {
+					if p, ok := types.Unalias(t).(*types.Pointer); ok {
+						t = p.Elem()
+					}
+					st, ok := t.Underlying().(*types.Struct)
+					if !ok {
+						break
+					}
+					f := st.Field(idx)
+					if nt, ok := types.Unalias(t).(*types.Named); ok && shared[nt.Obj()] {
+						return nt.Obj().Name() + "." + f.Name()
+					}
+					t = f.Type()
+				}
+			}
+			return sharedField(v.X)
+		}
+		return ""
+	}
+	n := 0
+	seen := map[string]bool{}
+	for _, fd := range load.AllFuncDecls(pkg) {
+		// methods only: a constructor fills in a struct nobody shares yet
+		if fd.Body == nil || fd.Recv == nil {
+			continue
+		}
+		check := func(l ast.Expr, at token.Pos) {
+			f := sharedField(l)
+			if f == "" {
+				return
+			}
+			n++
+			_, ok := sharedWritable[f]
+			key := fmt.Sprintf("%s writes only the documented shared state (%s)", load.FuncName(fd), f)
+			if seen[key] && ok {
+				return
+			}
+			seen[key] = true
+			e.Run.Check("R-SHARED", key, e.Prog.Pos(at), ok,
+				"a store into "+f+": the struct is shared by every file restored or decorated with it, so what one call leaves there changes the next call (a name resolved for an earlier file is used although the resolver now answers differently) and concurrent calls race on it; per-file state belongs in the per-file struct, which RestoreFile resets")
+		}
+		ast.Inspect(fd.Body, func(nd ast.Node) bool {
+			switch v := nd.(type) {
+			case *ast.AssignStmt:
+				for _, l := range v.Lhs {
+					check(l, v.Pos())
+				}
+			case *ast.IncDecStmt:
+				check(v.X, v.Pos())
+			case *ast.CallExpr:
+				// delete(m, k) on a shared map
+				if id, ok := v.Fun.(*ast.Ident); ok && id.Name == "delete" && len(v.Args) == 2 {
+					if _, isB := info.Uses[id].(*types.Builtin); isB {
+						check(v.Args[0], v.Pos())
+					}
+				}
+			}
+			return true
+		})
+	}
+	e.Run.Floor("R-SHARED", "stores through the shared Restorer / Decorator", n, 4)
+}
